@@ -16,6 +16,19 @@ PROPS = {
                          "Instant::now() replaced by a logical clock argument in the model"],
         "assumptions": ["monotone clock; HashMap/VecDeque behave as an association map / FIFO"],
     },
+    "C05": {
+        "props_module": "Redproxy.Props.C05",
+        "mode": "c05", "model_mode": "codec",
+        "rule": "malformed-first: for generated valid messages of each of 12 decoder entry points (SOCKS request/reply readers, HTTP "
+                "request/response head readers, RPFM from_buffer/read_head/stream reader, SOCKS-UDP header, h11c_connect reading a hostile "
+                "upstream reply incl. Session-Id, h11c_handshake, SOCKS connector negotiation, TargetAddress parser): every value of each of "
+                "the first bytes, truncation at every offset, random garbage/insert/delete; the (tag,len) grid of RPFM address attributes; "
+                "QUIC datagram sequences into Fragments<Frame>; non-trivial = not the unmodified valid message; distinct = distinct case lines",
+        "nontrivial": lambda c, i: True,
+        "trusted_base": ["hand-written decoder models (Socks/Http/Frames/Fragment) tied to the code by outcome-class correspondence under catch_unwind",
+                         "dev profile (overflow checks on) with panic=unwind override so that panics are observable"],
+        "assumptions": ["resource exhaustion (unbounded read_line / read_until buffers) is outside the model"],
+    },
     "C12": {
         "props_module": "Redproxy.Props.C12",
         "mode": "c12", "model_mode": "codec",
